@@ -691,6 +691,17 @@ func queryKeys(q string) string {
 	return strings.Join(ks, ",")
 }
 
+// FuzzTranscode is the native coverage-guided target (thorough tier): the same rule/message/split generator driven by the fuzzer's bytes.
+func FuzzTranscode(f *testing.F) {
+	f.Fuzz(rapid.MakeFuzz(func(t *rapid.T) {
+		c := genCase(t)
+		vs, _ := Check(c)
+		if len(vs) > 0 && !evid.IsKnown(prop, vs[0].Sig) {
+			t.Fatalf("property %s violated: %v\ncase: %+v", prop, vs[0], c)
+		}
+	}))
+}
+
 func TestReplay(t *testing.T) {
 	path := os.Getenv("VERIF_REPLAY")
 	if path == "" {
